@@ -220,7 +220,9 @@ class ReplacementFrontend(ConstrainedFrontend):
         er = self._replacement(e)
         vr = self._replacement(v)
         ecr = self._replace_list(extra_constraints)
-        if self._replaced_away(e, er) and not self._actual_frontend.satisfiable(extra_constraints=ecr, exact=exact):
+        if (self._replaced_away(e, er) or self._replaced_away(v, vr)) and not self._actual_frontend.satisfiable(
+            extra_constraints=ecr, exact=exact
+        ):
             return False
         r = self._actual_frontend.solution(er, vr, extra_constraints=ecr, exact=exact)
         if self._unsafe_replacement and r and (not isinstance(vr, Base) or not vr.symbolic):
